@@ -42,6 +42,19 @@ Theorem C12_best_by_information_index : forall sel i, best_within true sel = RId
 Proof. exact best_within_inf_spec. Qed.
 Print Assumptions C12_best_by_information_index.
 
+(* the score post-processing keeps imputation ratio and information index and rounds the (group mean of the) distance
+   correlation to the nearest hundredth, a tie to the even neighbour *)
+Theorem C12_rounding : forall q,
+  let z := round_half_even q in
+  (inject_Z z - (1#2) <= q <= inject_Z z + (1#2))%Q /\
+  ((q == inject_Z z + (1#2))%Q \/ (q == inject_Z z - (1#2))%Q -> Z.even z = true).
+Proof. exact round_half_even_spec. Qed.
+Print Assumptions C12_rounding.
+
+Theorem C12_equalize_keeps_scores : forall t, map c_imp (equalize t) = map c_imp t /\ map c_inf (equalize t) = map c_inf t.
+Proof. exact equalize_keeps_scores. Qed.
+Print Assumptions C12_equalize_keeps_scores.
+
 (* the staged selection: default manager iff there are no matrices; otherwise a constructed candidate of a family that
    was created; an exception only if not one candidate of any family could be constructed *)
 Theorem C12_select_outcome : forall e,
